@@ -8,7 +8,8 @@ rounding bound elsewhere.  Besides single calls, *histories on ONE System object
 step (model restarted from the implementation's own state before each step, so the only thing a history
 can add is hidden state of the implementation — which the theorems say must not exist).
 Search: the clauses of the property evaluated on the real code with fractions.Fraction, on single calls
-and at every wrap / normalize of such histories.
+and at every wrap / normalize of such histories; plus the cross-cutting clauses (aliasing of inputs and outputs,
+magnitudes, input forms, call spellings, working units, refusals) listed in docs/C05.md.
 """
 from __future__ import annotations
 
@@ -72,6 +73,15 @@ RULE = ('wrap: cells = products of dyadic shears/permutations/diagonal powers of
         'to thousands of cells outside (up to 1e6 in the float regime); every step compared with the model restarted '
         'from the implementation state before it, at the bound 32 u kappa (1+|s|) (u=2^-53, kappa=|| |V||V^-1| ||); '
         'histories that stay on the grid are also run as one chain on the object-level model and compared exactly. '
+        'cross-cutting families: histories also read 1-6 getters in random order (reads must not write), assign positions '
+        'through six entry points (model op setPos), ask for flags / transform in every spelling or not at all, give '
+        'the box as hi/lo bounds or the origin alone, pass a non-bool scale (documented TypeError); every array handed '
+        'in is compared and overwritten after the call, every array returned is copied, tested with shares_memory '
+        'against the object and all earlier results and overwritten; whole cases rescaled by 2^k, k in +-{40,130,250,320}; '
+        'atoms exactly on lattice planes, a rounding error below them (computed coordinate in (-1.1e-16, 0)) and '
+        '1e-13..1e-4 off them; positions as float64 / lists / tuples / python ints / int64 / int32 / float32 / Fortran / '
+        'strided view / read-only, pbc and box in several spellings; exactly singular cells (refusal); non-default '
+        'working units (bitwise the same result); two systems with the default box. '
         'distinct = distinct canonical driver line; '
         'non-trivial = at least one atom outside the cell or a left-handed/non-normal cell')
 ASSUMPTIONS = [
@@ -457,9 +467,12 @@ def _float_case(rng, pbc, n=None, far=True, faces=True):
             elif r < 0.7:
                 s.append(rng.uniform(0.05, 0.95))
             elif r < 0.85 and faces:
-                # on a face / lattice plane, or a hair off it: from the rounding level up to 1e-4 of a cell
-                s.append(rng.choice([0, 1, -1, 2]) + rng.choice([0, 1e-13, -1e-13, 3e-16, 1e-10, -1e-10, 1e-8, -1e-8, 1e-7,
-                                                                 -1e-7, 1.5e-6, -1.5e-6, 1e-5, -1e-5, 1e-4, -1e-4]))
+                # exactly on a face / lattice plane (the computed coordinate then carries rounding noise of either sign:
+                # k - 1e-17 is where s - floor(s) rounds to 1.0), or a hair off it: from the rounding level up to 1e-4
+                t = rng.random()
+                off = 0 if t < 0.4 else rng.choice([1e-13, -1e-13, 3e-16, -1e-16]) if t < 0.6 else \
+                    rng.choice([1e-10, -1e-10, 1e-8, -1e-8, 1e-7, -1e-7, 1.5e-6, -1.5e-6, 1e-5, -1e-5, 1e-4, -1e-4])
+                s.append(rng.choice([0, 0, 1, -1, 2]) + off)
             elif far:
                 # far outside: unrestricted along periodic directions, moderate along padded ones
                 s.append(rng.choice([-1, 1]) * 10 ** rng.uniform(1, 6 if pbc[k] else 3))
@@ -510,7 +523,8 @@ def _form_case(rng, pbc, form):
         lim = [40 if p else 6 for p in pbc]
         pos = np.array([[float(rng.randint(-lim[k], lim[k])) for k in range(3)] for _ in range(n)])
     else:
-        S = np.array([[rng.choice([rng.uniform(-2, 3), rng.uniform(-30, 30) if pbc[k] else rng.uniform(-3, 4)])
+        S = np.array([[rng.choice([rng.uniform(-2, 3), rng.uniform(-30, 30) if pbc[k] else rng.uniform(-3, 4),
+                                   rng.choice([-1, 1]) * 10 ** rng.uniform(2, 6) if pbc[k] else rng.uniform(0.1, 0.9)])
                        for k in range(3)] for _ in range(n)])
         pos = S @ V + o
         if form == 'f32':
@@ -521,6 +535,34 @@ def _form_case(rng, pbc, form):
     c['pbcform'] = rng.choice(['tuple', 'list', 'int', 'npbool', 'npint'])
     c['boxform'] = rng.choice(['array', 'list', 'avect'])
     return c
+
+
+def _hairline_case(rng, pbc):
+    """atoms whose COMPUTED relative coordinate along a periodic axis is a rounding error below a lattice plane through
+    the origin: s in (-1.1e-16, 0), where floor(s) = -1 and s - floor(s) rounds to exactly 1.0 (the atom lands on the
+    upper face; anything that then treats 1.0 as 'outside' moves it again without telling the image flag).  Found by
+    nudging the position ulp by ulp; the expression is the one any implementation evaluates, the oracle stays exact."""
+    import numpy as np
+    V, kind = _float_cell(rng)
+    o = np.zeros(3) if rng.random() < 0.3 else np.array([rng.uniform(-10, 10) for _ in range(3)])
+    R = np.linalg.inv(V).T
+    pos = []
+    for _ in range(rng.randint(2, 6)):
+        k = rng.randint(0, 2)
+        S = np.array([rng.uniform(-2, 3) for _ in range(3)])
+        S[k] = 0.0
+        p = S @ V + o
+        for _t in range(200):
+            sk = float(np.inner(p - o, R)[k])
+            if -1.1e-16 < sk < 0:
+                break
+            j = rng.randint(0, 2)
+            # move one coordinate by one ulp in the direction that lowers (raises) the coordinate towards the window
+            down = (sk >= 0) == (R[k][j] > 0)
+            p[j] = np.nextafter(p[j], -np.inf if down else np.inf)
+        pos.append(p.tolist())
+    return _canon_case({'vects': V.tolist(), 'origin': o.tolist(), 'pbc': list(pbc), 'pos': pos, 'regime': 'float',
+                        'kind': kind, 'hairline': True})
 
 
 def _singular_case(rng, pbc):
@@ -785,6 +827,11 @@ def _state(system):
     """the visible state of a live system in the form of a case (exact floats)."""
     return {'vects': system.box.vects.tolist(), 'origin': system.box.origin.tolist(),
             'pbc': [bool(p) for p in system.pbc], 'pos': system.atoms.view['pos'].tolist()}
+
+
+def _finite_state(st):
+    return all(math.isfinite(x) for r in st['vects'] for x in r) and all(math.isfinite(x) for x in st['origin']) \
+        and all(math.isfinite(x) for p in st['pos'] for x in p)
 
 
 def _inv_exact(V):
@@ -1056,6 +1103,8 @@ def _norm_arrays(new, T):
     ro = getattr(new.box, '_Box__origin', None)
     if ro is not None:
         arrs.append(ro)
+    if isinstance(getattr(new, 'pbc', None), np.ndarray):
+        arrs.append(new.pbc)
     if isinstance(T, np.ndarray):
         arrs.append(T)
     return arrs
@@ -1076,7 +1125,7 @@ def _run_hist(hist):
             if c['op'] == 'norm':
                 new, T = obs
                 mine = _norm_arrays(new, T)
-                own = [system.atoms.view[kk] for kk in system.atoms.view.keys()] + [_raw_vects(system.box)]
+                own = [system.atoms.view[kk] for kk in system.atoms.view.keys()] + [_raw_vects(system.box), system.pbc]
                 rec['shared'] = sorted({'input' for x in mine for y in own if y is not None and np.shares_memory(x, y)}
                                        | {'an earlier result' for x in mine for y in live if np.shares_memory(x, y)})
                 if isinstance(T, np.ndarray) and any(np.shares_memory(T, x) for x in mine[:-1]):
@@ -1102,7 +1151,7 @@ def _run_hist(hist):
         rec['after'] = _state(system)
         rec['snap1'] = _snap(system)
         recs.append(rec)
-        if 'err' in rec:
+        if 'err' in rec or not _finite_state(rec['after']):
             break
     return system, recs
 
@@ -1137,6 +1186,17 @@ def _corr_hist(ctx, hists):
             system, recs = _run_hist(h)
         except cm.InfraError:
             raise
+        # an object whose state is no longer finite (it kept a reference to an array that was overwritten after the
+        # call, ...) cannot be put on the wire: the history is cut there and reported
+        for i, rec in enumerate(recs):
+            if not _finite_state(rec['after']):
+                ctx.violate('aliasing:array-kept', f'history {_hist_name(h)} step {i} ({rec["c"]["op"]}'
+                            f'{" " + str(rec["c"].get("what")) if rec["c"]["op"] == "peek" else ""}): the object and the '
+                            'caller share an array (handed in and kept, or handed out without a copy): overwriting the '
+                            f'caller\'s array after the call changed the state of the system (box {rec["after"]["vects"]}, '
+                            f'origin {rec["after"]["origin"]})', {'op': 'hist', 'hist': _pub(h), 'step': i})
+                del recs[i:]
+                break
         runs.append(recs)
         exact = h['case']['regime'] == 'grid'
         chain = exact
@@ -1602,6 +1662,7 @@ def correspond(ctx):
             if form not in ('f32', 'readonly'):
                 extra.append(_form_case(rng, rng.choice(PBCS), form))
         extra.append(_singular_case(rng, rng.choice(PBCS)))
+        extra.append(_hairline_case(rng, rng.choice(PBCS)))
     wrap_cases += extra
     _corr_wrap(ctx, wrap_cases)
     norm_cases = []
@@ -1671,8 +1732,23 @@ def _wrap_clauses(ctx, case, report=True):
     except Exception as e:  # noqa
         return fail('wrap:construction-raises', f'building the system ({case.get("posform")}, {case.get("pbcform")}, '
                     f'{case.get("boxform")}) raised {type(e).__name__}: {e}')
+    bad = _box_as_asked(system, case)
+    if bad:
+        return fail('box:construction', bad)
     return _wrap_clauses_sys(system, case['regime'] == 'grid' and not f32, fail, ret=case.get('ret', 'kw'),
                              seps=SEPS32 if f32 else 0.0)
+
+
+def _box_as_asked(system, case):
+    """Box(vects=V, origin=o) holds V and o (the setter may zero components below 1e-9 of the largest one)."""
+    import numpy as np
+    want, got = np.array(case['vects'], dtype=float), system.box.vects
+    m = float(np.abs(want).max())
+    if not all(a == b or (a == 0 and abs(b) <= CLEAN * m) for a, b in zip(got.ravel().tolist(), want.ravel().tolist())) \
+            or not np.array_equal(system.box.origin, np.array(case['origin'], dtype=float)):
+        return (f'Box built from vects {want.tolist()} origin {case["origin"]} ({case.get("boxform", "array")}) holds '
+                f'{got.tolist()} / {system.box.origin.tolist()}')
+    return None
 
 
 def _call_wrap(system, ret):
@@ -1898,6 +1974,9 @@ def _norm_clauses(ctx, case, report=True):
     except Exception as e:  # noqa
         return fail('normalize:construction-raises', f'building the system ({case.get("posform")}, {case.get("pbcform")}, '
                     f'{case.get("boxform")}) raised {type(e).__name__}: {e}')
+    bad = _box_as_asked(system, case)
+    if bad:
+        return fail('box:construction', bad)
     return _norm_clauses_sys(system, fail, ret=case.get('ret', 'kw'), seps=SEPS32 if f32 else 0.0)
 
 
@@ -1933,7 +2012,7 @@ def _norm_clauses_sys(system, fail, ret='kw', seps=0.0):
     if type(new).__name__ != 'System' or (T is not None and not (isinstance(T, np.ndarray) and T.shape == (3, 3))):
         return fail('normalize:return', f'normalize ({ret}) returned {type(new).__name__} / {type(T).__name__}')
     mine = _norm_arrays(new, T)
-    own = [system.atoms.view[k] for k in system.atoms.view.keys()] + [_raw_vects(system.box),
+    own = [system.atoms.view[k] for k in system.atoms.view.keys()] + [_raw_vects(system.box), system.pbc,
                                                                       getattr(system.box, '_Box__origin', None)]
     if any(y is not None and np.shares_memory(x, y) for x in mine for y in own):
         return fail('normalize:shares-memory', 'what normalize returned shares memory with its input')
@@ -2030,7 +2109,9 @@ def _norm_clauses_sys(system, fail, ret='kw', seps=0.0):
                 continue
             s0 = max(abs(float(x)) for x in rel0[i] + rel0[j])
             # |d0^2 - d1^2| <= 2 |d| |delta| with |d| <= the cell diameter and |delta| the position bound above
-            dtol = 8 * (ub * sc + _ep(kap, s0, 3 * sc, omax) + 3 * cl + seps * 3 * sc) * 3 * sc
+            # float32 storage: one rounding of the rebuilt (not yet wrapped) coordinates, i.e. at the old magnitude
+            far32 = seps * max(abs(float(x)) for x in old[i] + old[j])
+            dtol = 8 * (ub * sc + _ep(kap, s0, 3 * sc, omax) + 3 * cl + seps * 3 * sc + 2 * far32) * 3 * sc
             if _over('normalize:distance', abs(d0 - d1), dtol):
                 return fail('normalize:distance', f'nearest-image distance between atoms {i} and {j} changed from '
                             f'{math.sqrt(float(d0))!r} to {math.sqrt(float(d1))!r}')
@@ -2088,8 +2169,8 @@ def _other_clauses(system, c, exact, fail):
                     f'{c["_handed_modified"]})')
     if not (np.isfinite(snap1['vects']).all() and np.isfinite(snap1['origin']).all()
             and np.isfinite(snap1['props']['pos']).all()):
-        return fail('aliasing:handed-in-array-kept', 'the object kept a reference to an array it was handed or handed '
-                    'out: overwriting that array afterwards changed the state of the system (box '
+        return fail('aliasing:array-kept', 'the object and the caller share an array (handed in and kept, or handed out '
+                    'without a copy): overwriting the caller\'s array after the call changed the state of the system (box '
                     f'{snap1["vects"].tolist()}, origin {snap1["origin"].tolist()})')
     if name in ('peek', 'spos', 'norm', 'badscale'):
         bad = _same_snap(snap0, snap1)
@@ -2184,6 +2265,27 @@ def _env_clauses(ctx, case):
             return
 
 
+def _default_box_clause(ctx):
+    """two systems built without a box / pbc must not share the defaults (wrap works in place on the box)."""
+    import numpy as np
+    import atomman as am
+    s1 = am.System(atoms=am.Atoms(pos=[[2.5, 0.25, -3.5]]), pbc=(True, False, False))
+    s2 = am.System(atoms=am.Atoms(pos=[[0.5, 0.5, 0.5]]))
+    ctx.stats.case('oracle:defaults', 'two systems with the default box', nontrivial=False)
+    before = _snap(s2)
+    try:
+        s1.wrap()
+        s1.pbc[0] = False
+    except Exception as e:  # noqa
+        ctx.violate('wrap:raises', f'wrap of a system with the default box raised {type(e).__name__}: {e}', {'op': 'defaults'})
+        return
+    bad = _same_snap(before, _snap(s2))
+    if bad or np.shares_memory(_raw_vects(s1.box), _raw_vects(s2.box)) or np.shares_memory(s1.pbc, s2.pbc):
+        ctx.violate('aliasing:default-shared', f'wrapping one system built with the default box changed {bad or "nothing yet"} '
+                    'of another system built the same way: the default box / pbc is shared between objects',
+                    {'op': 'defaults'})
+
+
 RETS_W = ('kw', 'pos', 'none', 'false')
 RETS_N = ('kw', 'style', 'fn', 'none', 'fnnone')
 
@@ -2202,6 +2304,14 @@ def search(ctx, broken):
         case['ret'] = RETS_N[it % 5] if it >= 10 else 'kw'
         ctx.stats.case('oracle:normalize', _line('norm', case))
         _norm_clauses(ctx, case)
+    for it in range(ctx.n(16, 120) * mult):
+        pbc = (True, True, True) if it % 2 == 0 else rng.choice(PBCS[1:])
+        case = _hairline_case(rng, pbc)
+        ctx.stats.case('oracle:wrap:hairline', _line('wrap', case))
+        _wrap_clauses(ctx, case)
+        if all(pbc) and it % 4 == 0:
+            ctx.stats.case('oracle:normalize:hairline', _line('norm', case))
+            _norm_clauses(ctx, case)
     # the same clauses over magnitudes: whole cases rescaled by exact powers of two
     for it in range(ctx.n(6, 60) * mult):
         for k in SCALES:
@@ -2213,7 +2323,7 @@ def search(ctx, broken):
             ctx.stats.case('oracle:normalize:scale', _line('norm', case))
             _norm_clauses(ctx, case)
     # input forms: integer-typed / float32 / list / tuple / non-contiguous / read-only positions, pbc and box spellings
-    for it in range(ctx.n(4, 40) * mult):
+    for it in range(ctx.n(6, 60) * mult):
         for form in POSFORMS:
             pbc = rng.choice(PBCS)
             if form != 'readonly':                # (wrap works in place: a read-only array cannot be wrapped)
@@ -2223,6 +2333,7 @@ def search(ctx, broken):
             case = _form_case(rng, (True, True, True), form)
             ctx.stats.case('oracle:normalize:form:' + form, (form, _line('norm', case)))
             _norm_clauses(ctx, case)
+    _default_box_clause(ctx)
     # refusals: exactly singular cells
     for it in range(ctx.n(10, 100) * mult):
         case = _singular_case(rng, rng.choice(PBCS))
@@ -2249,7 +2360,7 @@ def search(ctx, broken):
 
 def replay(ctx, payload):
     r = payload.get('replay') or {}
-    cases = [r] if (r.get('case') or r.get('hist')) else \
+    cases = [r] if (r.get('case') or r.get('hist') or r.get('op') == 'defaults') else \
         [d for d in payload.get('disagreements', []) if d and (d.get('case') or d.get('hist'))]
     if not cases:
         search(ctx, True)
@@ -2264,7 +2375,11 @@ def replay(ctx, payload):
                 for d in ctx.disagreements:
                     print('replay: model/implementation disagree:', d.what)
             continue
-        case = r['case']
+        case = r.get('case')
+        if r.get('op') == 'defaults':
+            _default_box_clause(ctx)
+            print('replay default box ->', [v.what for v in ctx.violations] or 'not shared')
+            continue
         if r.get('op') == 'env':
             _env_clauses(ctx, case)
             print('replay working units', r.get('units'), '->', [v.what for v in ctx.violations] or 'same result')
